@@ -99,7 +99,8 @@ def execute(spec):
             expected = [ref.safe_sequence_ref(succ, SG.source, SG.sink, it) for it in items]
         sc = world["sched"]
         S = sched.Scheduler(sc["seed"], policy=sc["policy"], switch_p=sc["switch_p"], pct_changes=sc["pct_changes"],
-                            decisions=sc.get("decisions"), opcode=sc.get("opcode", False), max_steps=400000)
+                            decisions=sc.get("decisions"), opcode=sc.get("opcode", False), max_steps=400000,
+                            pct_horizon=(25 if world["mode"] == "safe_paths" else 90) * max(1, len(items)) * (6 if sc.get("opcode") else 1))
         got = None
         pools = {}
         # capture the per-worker pools when safe_sequences returns
